@@ -38,6 +38,37 @@ from fsa.source import AnchorMissing, FunctionInfo, Repo, Unsupported, stmt_key,
 _EFFECTS_CACHE: Dict[int, Effects] = {}
 
 
+
+def is_check_read(sh, v) -> bool:
+    """Is the expression `v` a read of the check variables' current values?  By role: the call of a helper (nested in the
+    solver, module-level, or a method) whose body goes over `<model>.check`, or such an expression written out."""
+    if v is None:
+        return False
+    if not isinstance(v, ast.Call):
+        return False
+    name = dotted(v.func) or ''
+    if name == 'get_check_values':
+        return True
+    cands = []
+    fnode = sh.fi.node
+    short = name.split('.')[-1]
+    for st in fnode.body:
+        if isinstance(st, ast.FunctionDef) and st.name == name:
+            cands.append(st)
+    for st in sh.fi.module.tree.body:
+        if isinstance(st, ast.FunctionDef) and st.name == name:
+            cands.append(st)
+    if name.startswith('self.') and name.count('.') == 1 and getattr(sh.fi, 'cls', None) is not None:
+        for st in sh.fi.cls.node.body:
+            if isinstance(st, ast.FunctionDef) and st.name == short:
+                cands.append(st)
+    for d in cands:
+        if any(isinstance(x, ast.Attribute) and x.attr == 'check' for x in ast.walk(d)) and any(isinstance(x, ast.Return) and x.value is not None for x in ast.walk(d)):
+            return True
+    if not cands and name in ('np.array', 'numpy.array', 'np.asarray') and any(isinstance(x, ast.Attribute) and x.attr == 'check' for x in ast.walk(v)):
+        return True
+    return False
+
 def effects_of(repo: Repo) -> Effects:
     e = _EFFECTS_CACHE.get(id(repo))
     if e is None:
@@ -319,6 +350,21 @@ class SolverShape:
             raise AnchorMissing(f'{self.q}: min_iter gate: found {len(cands)} comparisons of the pass counter with min_iter')
         return cands[0]
 
+    def _pure_helpers(self):
+        if getattr(self, '_ph', None) is None:
+            from rules.common import pure_helpers
+            self._ph = pure_helpers(self.fi)
+        return self._ph
+
+    def _inline_pure_calls(self, e: ast.AST, depth: int = 3, methods: bool = False) -> ast.AST:
+        from rules.common import Fn
+        return Fn._inline_pure_calls(self, e, depth, methods)
+
+    def read_helpers(self, e: ast.AST) -> ast.AST:
+        """`e` with calls of one-expression helpers (nested, module-level) read as the expression they return."""
+        from rules.common import Fn
+        return Fn._inline_pure_calls(self, e)
+
     def convergence_node(self) -> Tuple[Node, Tuple[str, str, ast.AST, ast.AST, bool]]:
         cands = []
         unknown = []
@@ -328,12 +374,13 @@ class SolverShape:
             if 'tol' not in {x.id for x in ast.walk(n.ast) if isinstance(x, ast.Name)}:
                 continue
             try:
-                r = convergence_test(n.ast)
+                test_ = self.read_helpers(n.ast)
+                r = convergence_test(test_)
                 lab = 'T'
                 if r[0] != 'all':
                     # `if not converged: continue`: the test states the negation; read the predicate it negates
                     try:
-                        r2 = convergence_test(ast.UnaryOp(op=ast.Not(), operand=n.ast))
+                        r2 = convergence_test(ast.UnaryOp(op=ast.Not(), operand=test_))
                         if r2[0] == 'all':
                             r, lab = r2, 'F'
                     except (Wrong, Unknown):
@@ -692,7 +739,7 @@ def check_convergence(R, sh: SolverShape) -> None:
                 roles.add('other')
                 continue
             node = sh.cfg.nodes[s]
-            if isinstance(v, ast.Call) and dotted(v.func) == 'get_check_values':
+            if is_check_read(sh, v):
                 if sh.in_loop(node):
                     roles.add('current' if sh.n_eval.id in sh.dom[s] else 'stale')
                 else:
@@ -733,7 +780,7 @@ def value_roles(sh: SolverShape) -> Tuple[str, str]:
         if not sh.in_loop(n) or n.loops[-1] != sh.loop.id:
             continue
         v = a.value
-        if isinstance(v, ast.Call) and dotted(v.func) == 'get_check_values' and sh.n_eval.id in sh.dom[n.id]:
+        if is_check_read(sh, v) and sh.n_eval.id in sh.dom[n.id]:
             cur = a.targets[0].id
     if cur is None:
         raise AnchorMissing(f'{sh.q}: no re-read of the check values after the evaluation call')
